@@ -423,6 +423,10 @@ def collect(ctx, results, props, harness="pipe"):
                 tag = l[9:12]
                 if tag in props:
                     ctx.problem("propfail", l[:600], signature=tag + ":" + " ".join(l.split()[1:4]), **rep)
+            elif l.startswith("MODELDIFF["):
+                tag = l[10:13]
+                if tag in props:
+                    ctx.problem("mismatch", l[:600], **rep)
             elif l.startswith("NUMSUMMARY"):
                 for kv in l.split()[1:]:
                     k, _, v = kv.partition("=")
